@@ -83,6 +83,37 @@ def clusterDoOnceWith (smp : Int → List α → List α) (outcome : Nat → α 
 def clusterDoOnce (outcome : Nat → α → Outcome) (enum1 : List α) (enum2 : List α → List α) : Run α :=
   clusterDoOnceWith sample outcome enum1 enum2
 
+/-! ### origin/blobclient.clusterClient requests: look the replicas up, then talk to the replicas -/
+
+/-- how the request loop of a clusterClient method walks over the replica clients returned by Resolve -/
+inductive Walk where
+  | untilOk      -- Stat (after a shuffle), GetMetaInfo, PrefetchBlob, UploadBlob: stop at the first success
+  | all          -- OverwriteMetaInfo, Owners: every replica
+  | one          -- CheckReadiness: one randomly chosen replica
+  deriving DecidableEq, Repr
+
+def visitAll (outcome : Nat → α → Outcome) : Nat → List α → Run α → Run α
+  | _, [], r => r
+  | i, a :: t, r =>
+    visitAll outcome (i + 1) t { r with contacted := r.contacted ++ [a], result := some (outcome i a) }
+
+/-- phase 2: `order` = the replica clients in the order the method visits them (Resolve's order, or the
+    shuffled order for Stat; for `one` the chosen replica is the head) -/
+def replicaPhase (w : Walk) (outcome : Nat → α → Outcome) (order : List α) : Run α :=
+  match w with
+  | .untilOk => tryUntilOk outcome 0 order {}
+  | .all => visitAll outcome 0 order {}
+  | .one => match order with
+    | [] => {}
+    | a :: _ => { contacted := [a], result := some (outcome 0 a) }
+
+/-- a whole clusterClient request: `lookup` = blobclient.Locations over the cluster host list; when it
+    succeeds the request continues on the replicas the answering origin named (`replicas`) -/
+def clusterRequest (w : Walk) (lookupOutcome replicaOutcome : Nat → α → Outcome)
+    (enum1 : List α) (enum2 : List α → List α) (replicas : List α) (order : List α → List α) : Run α × Run α :=
+  let l := locations lookupOutcome enum1 enum2
+  if l.result = some .ok then (l, replicaPhase w replicaOutcome (order replicas)) else (l, {})
+
 /-- `clusterClient.CheckReadiness` wraps every error of the single client in a fresh
     `fmt.Errorf("build index not ready: …")` before `doOnce` looks at it, so `doOnce` never sees a
     NetworkError there (and never reports `Failed`). -/
